@@ -71,6 +71,7 @@ func VerifRunCluster(cs VerifClusterCase, hook VerifResHook) (res map[string]any
 	}
 	subs := map[int]*verifClSub{}
 	spies := map[int]*internal.VerifSpy{}
+	pubs := map[int]*Publisher{}
 	nlist := map[int]int{} // listeners per watcher (spy included)
 	var order []int
 	paused := false
@@ -82,6 +83,9 @@ func VerifRunCluster(cs VerifClusterCase, hook VerifResHook) (res map[string]any
 		}
 		for _, s := range subs {
 			s.close()
+		}
+		for _, p := range pubs {
+			p.Stop()
 		}
 		for w, sp := range spies {
 			internal.GetRegistry().Unmonitor(eps(), cs.Watchers[w].Key, cs.Watchers[w].Exact, sp)
@@ -191,6 +195,50 @@ func VerifRunCluster(cs VerifClusterCase, hook VerifResHook) (res map[string]any
 					order = append(order[:i], order[i+1:]...)
 					break
 				}
+			}
+		case "pub":
+			// a registration made by the real Publisher: NewPublisher(...).KeepAlive() -> Grant, Put key/<id or lease>
+			pid, key, val, id := geti(1), gets(2), gets(3), geti(4)
+			var popts []PubOption
+			if id > 0 {
+				popts = append(popts, WithId(int64(id)))
+			}
+			p := NewPublisher(eps(), key, val, popts...)
+			if err := p.KeepAlive(); err != nil {
+				errs = err.Error()
+			} else {
+				pubs[pid] = p
+			}
+		case "unpub":
+			p := pubs[geti(1)]
+			lease := int64(p.lease)
+			p.Stop()
+			delete(pubs, geti(1))
+			for i := 0; i < 20000 && !etcd.LeaseGone(lease); i++ {
+				time.Sleep(200 * time.Microsecond)
+			}
+		case "ppause":
+			// Publisher.Pause: the registration is revoked until Resume
+			p := pubs[geti(1)]
+			lease := int64(p.lease)
+			p.Pause()
+			for i := 0; i < 20000 && !etcd.LeaseGone(lease); i++ {
+				time.Sleep(200 * time.Microsecond)
+			}
+		case "presume":
+			// Publisher.Resume: registers again on its next tick (1 s)
+			before := etcd.PutCount()
+			pubs[geti(1)].Resume()
+			for i := 0; i < 20000 && etcd.PutCount() == before; i++ {
+				time.Sleep(200 * time.Microsecond)
+			}
+		case "expire":
+			// the lease expires (keys deleted, keep-alive channel closed): the Publisher registers again on its next tick (1 s)
+			p := pubs[geti(1)]
+			before := etcd.PutCount()
+			etcd.VExpire(int64(p.lease))
+			for i := 0; i < 20000 && etcd.PutCount() == before; i++ {
+				time.Sleep(200 * time.Microsecond)
 			}
 		case "put":
 			etcd.VPut(gets(1), gets(2))
